@@ -11,6 +11,7 @@ HS = "include/nano/core/hash.h"
 TS = "include/nano/tensor/stream.h"
 DM = "include/nano/tensor/dims.h"
 CF = "src/configurable.cpp"
+SH = "include/nano/core/stream.h"
 
 KERNELS = [
     # the generated Src_<group>.v files import Src_numeric: make sure it is (re)generated for C15 runs on a fresh
@@ -45,4 +46,16 @@ KERNELS = [
       [(r"nano::major_version", "cur_major"), (r"nano::minor_version", "cur_minor"), (r"nano::patch_version", "cur_patch")],
       [("m_major_version", "Z"), ("m_minor_version", "Z"), ("m_patch_version", "Z"),
        ("cur_major", "Z"), ("cur_minor", "Z"), ("cur_patch", "Z")], "stream", ["C15"]),
+    # ---- include/nano/core/stream.h, tensor/stream.h: the decisions of the STATEFUL readers (C15_Dest_Defs) --------
+    # the early exit of the string / vector readers after the size field (`read_failed` = the size read failed) ...
+    K("src_str_exit", SH, r"uint32_t\s+size\s*=\s*0;\s*if\s*\((.*?)\)\s*\{\s*return stream;",
+      [(r"!\s*read\(stream, size\)", "read_failed")], [("read_failed", "bool"), ("size", "Z")], "stream", ["C15"]),
+    K("src_vec_exit", SH, r"uint64_t\s+size\s*=\s*0;\s*if\s*\((.*?)\)\s*\{\s*return stream;",
+      [(r"!\s*read\(stream, size\)", "read_failed")], [("read_failed", "bool"), ("size", "Z")], "stream", ["C15"]),
+    # ... and the condition under which the tensor reader calls tensor.resize(dims) between header and payload:
+    # `true` for the unconditional statement, the guard of an `if (...) tensor.resize(dims);` otherwise
+    K("src_tensor_resize_when", TS, r"return stream;\s*\}\s*((?:if\s*\(.*?\)\s*\{?\s*)?tensor\.resize\(dims\));",
+      [(r"^tensor\.resize\(dims\)$", "true"), (r"^if \((.*)\) ?\{? ?tensor\.resize\(dims\)$", r"\1"),
+       (r"tensor\.size\(\)", "old_size"), (r"(?:::)?nano::size\(dims\)", "new_size")],
+      [("old_size", "Z"), ("new_size", "Z")], "stream", ["C15"]),
 ]
